@@ -111,6 +111,7 @@ class Contract:
     modname: str
     fname: str
     params: list
+    ret_annotation: Any = None
     out_spec: Any = None
     out_kind: str = "none"
     out_target: Any = None
@@ -195,12 +196,167 @@ def _dims_equiv(d1, d2) -> bool:
         return False
 
 
+# ---------------------------------------------------------------------------------- nested sequences (matrix-shaped values)
+# A parameter / result associated by rule R-matrix has a TARGET that is a nested tuple of law symbols: ((Z_ii, Z_io),
+# (Z_oi, Z_oo)) for a matrix, (I_i, I_o) for a column or a row.  Values of the same shape travel with it everywhere.
+def shape_flat(x) -> list:
+    """Leaves of a nested tuple / list, row-major as written."""
+    if isinstance(x, (tuple, list)):
+        out = []
+        for y in x:
+            out += shape_flat(y)
+        return out
+    return [x]
+
+
+def shape_map(f, x):
+    if isinstance(x, (tuple, list)):
+        return tuple(shape_map(f, y) for y in x)
+    return f(x)
+
+
+def shape_zip(a, b) -> list:
+    """[(leaf of a, leaf of b)] for two nested sequences of the same shape; ValueError when the shapes differ."""
+    if isinstance(a, (tuple, list)):
+        if not isinstance(b, (tuple, list)) or len(a) != len(b):
+            raise ValueError(f"shape mismatch: {shape_dims(a)} expected, got {shape_dims(b)}")
+        out = []
+        for x, y in zip(a, b):
+            out += shape_zip(x, y)
+        return out
+    if isinstance(b, (tuple, list)):
+        raise ValueError("shape mismatch: a scalar expected, got a sequence")
+    return [(a, b)]
+
+
+def _indexed_map(f, x, ix=()):
+    """shape_map with the position: f(leaf, (i, j))."""
+    if isinstance(x, (tuple, list)):
+        return tuple(_indexed_map(f, y, ix + (k,)) for k, y in enumerate(x))
+    return f(x, ix)
+
+
+def shape_dims(x):
+    """(n,) for a flat sequence, (rows, cols) for a regular two-level one, () for a scalar, None for anything else."""
+    if not isinstance(x, (tuple, list)):
+        return ()
+    if not x:
+        return None
+    if all(not isinstance(y, (tuple, list)) for y in x):
+        return (len(x),)
+    if all(isinstance(y, (tuple, list)) and y and all(not isinstance(z, (tuple, list)) for z in y) for y in x) \
+            and len({len(y) for y in x}) == 1:
+        return (len(x), len(x[0]))
+    return None
+
+
+def annotation_shape(ann):
+    """`tuple[tuple[Quantity, float], tuple[Quantity, Quantity]]` -> (('q', 'f'), ('q', 'q')): a fixed-shape nested tuple
+    whose leaves are Quantity ('q') or plain numbers float / int ('f').  None for every other annotation (strings,
+    variable length, Any, unions, other classes): rule R-matrix does not apply to it."""
+    import typing
+    if isinstance(ann, str) or typing.get_origin(ann) is not tuple:
+        return None
+    args = typing.get_args(ann)
+    if not args or Ellipsis in args:
+        return None
+
+    def leaf(a):
+        if a in (float, int):
+            return "f"
+        if inspect.isclass(a) and a.__name__ == "Quantity":
+            return "q"
+        return None
+
+    if all(typing.get_origin(a) is tuple for a in args):
+        rows = []
+        for a in args:
+            inner = typing.get_args(a)
+            if not inner or Ellipsis in inner or any(leaf(x) is None for x in inner):
+                return None
+            rows.append(tuple(leaf(x) for x in inner))
+        return tuple(rows) if len({len(r) for r in rows}) == 1 else None
+    if all(leaf(a) is not None for a in args):
+        return tuple(leaf(a) for a in args)
+    return None
+
+
+def matrix_literals(eq) -> list:
+    """Matrix literals of plain, pairwise distinct law symbols occurring in a published equation, as nested tuples of
+    rows ((a, b), (c, d)), in order of occurrence."""
+    out = []
+    try:
+        nodes = list(sp.preorder_traversal(eq))
+    except Exception:  # noqa: BLE001
+        return out
+    for x in nodes:
+        if isinstance(x, sp.MatrixBase):
+            ents = list(x)
+            if ents and all(isinstance(v, sp.Symbol) and not isinstance(v, sp.Idx) for v in ents) \
+                    and len(set(ents)) == len(ents):
+                rows = tuple(tuple(x[i, j] for j in range(x.cols)) for i in range(x.rows))
+                if rows not in out:
+                    out.append(rows)
+    return out
+
+
+RULE_TEXT = {
+    "R-matrix": "association rule R-matrix (parameters / results the decorators leave without a law symbol): a value whose "
+                "annotation is a fixed-shape nested tuple of Quantity / float corresponds ENTRYWISE, row-major as written, "
+                "to a sympy Matrix literal of plain law symbols of the same shape in the published equation (a flat tuple of "
+                "length n: a Matrix column or row of length n), provided EXACTLY ONE Matrix literal of that shape consisting "
+                "of not-yet-associated symbols occurs in the equation; a float leaf needs a symbol declared dimensionless, a "
+                "dimension-only guard / validate_output dimension must agree with the declared dimension of every entry; "
+                "several candidates, no candidate, or a dimension mismatch: out_of_reach.  A matrix equation is read "
+                "entrywise (every entry of lhs - rhs must vanish)",
+    "R-unique": "association rule R-unique: if after the decorator-based associations, the name convention and R-matrix "
+                "exactly ONE parameter and exactly ONE plain law symbol remain unassociated and the result is associated "
+                "(validate_output symbol or R-matrix), they stand for each other; applied to UNGUARDED parameters only (no "
+                "decorator entry: a plain number), annotated float / int / Quantity, and only when the leftover law symbol "
+                "is declared dimensionless; a parameter with a dimension-only guard is NOT associated by this rule; anything "
+                "else: out_of_reach",
+}
+
+
+def _r_matrix(what: str, shape, lits, used, dim=None, leaf_kinds=True):
+    """Rule R-matrix for one parameter / the result.  shape: nested tuple of leaf kinds.  returns the nested tuple of
+    law symbols, or str = why the rule does not force an association."""
+    dims = shape_dims(shape)
+    if dims is None:
+        return f"{what} is not a regular nested tuple"
+    if len(dims) == 2:
+        cands = [rows for rows in lits if (len(rows), len(rows[0])) == dims]
+    else:
+        n = dims[0]
+        cands = [rows for rows in lits if (len(rows) == n and len(rows[0]) == 1) or (len(rows) == 1 and len(rows[0]) == n)]
+    cands = [rows for rows in cands if all(s not in used for s in shape_flat(rows))]
+    shown = "x".join(map(str, dims))
+    if not cands:
+        return f"no Matrix literal of not-yet-associated plain law symbols with shape {shown} occurs in the equation"
+    if len(cands) > 1:
+        return (f"{len(cands)} Matrix literals of not-yet-associated law symbols with shape {shown} occur in the equation "
+                f"({'; '.join(str(shape_flat(r)) for r in cands)}): no unique candidate")
+    rows = cands[0]
+    target = rows if len(dims) == 2 else tuple(shape_flat(rows))
+    for kind, s in shape_zip(shape, target):
+        d = getattr(s, "dimension", None)
+        if d is None:
+            return f"law symbol {s} declares no dimension"
+        if leaf_kinds and kind == "f" and not _is_dimensionless(d):
+            return (f"the entry annotated float would stand for {s}, which is declared with dimension {d} "
+                    "(a plain number needs a dimensionless symbol)")
+        if dim is not None and not _dims_equiv(d, dim):
+            return f"law symbol {s} is declared with dimension {d}, the decorator says {dim}"
+    return target
+
+
 def build_contract(mod, fname) -> Contract:
     from sympy.physics.units import Dimension
     f = vars(mod)[fname]
     inp, out, g = decorator_specs(f)
     sig = inspect.signature(g)
     c = Contract(mod.__name__, fname, [], undecorated=g, decorated=f)
+    c.ret_annotation = sig.return_annotation
     c.op = DOCUMENTED_OPS.get(c.qual, "")
     for p in sig.parameters.values():
         spec = inp.get(p.name)
@@ -316,14 +472,42 @@ def _associate(c: Contract, mod, eq):
                             for i in idx_syms)]
 
     idx_syms = {i for a in eq.atoms(sp.Indexed) for i in a.indices if isinstance(i, sp.Idx)}
-    if pending:
-        p = pending[0]
+    notes, rules = [], []
+
+    def no_symbol(p, extra=""):
         return (f"parameter {p.name}: the decorator names no law symbol and the module has no law symbol called "
-                f"'{p.name.rstrip('_')}' (association would be a guess)")
+                f"'{p.name.rstrip('_')}' (association would be a guess)" + (f"; {extra}" if extra else ""))
+
+    # ---- rule R-matrix: nested-tuple parameters <-> the only Matrix literal of unassociated law symbols of that shape.
+    # All candidates are determined against the SAME set of associated symbols (no dependence on the parameter order).
+    lits = matrix_literals(eq) if pending else []
+    taken, still = {}, []
+    for p in pending:
+        shp = annotation_shape(p.annotation)
+        if shp is None:
+            still.append(p)
+            continue
+        t = _r_matrix(f"parameter {p.name}", shp, lits, used, dim=p.spec if p.kind == "dim" else None)
+        if isinstance(t, str):
+            return no_symbol(p, f"R-matrix does not apply: {t}")
+        taken[p.name] = (p, t)
+    claimed = [s for _p, t in taken.values() for s in shape_flat(t)]
+    if len(set(claimed)) != len(claimed):
+        return no_symbol(next(iter(taken.values()))[0], "R-matrix does not apply: two parameters would stand for the same "
+                                                       "Matrix literal")
+    for name, (p, t) in taken.items():
+        amap[name] = t
+        hows[name] = "R-matrix"
+        used.update(shape_flat(t))
+        notes.append(f"R-matrix: parameter {name} <-> {_show_target(t)} (entrywise, row-major)")
+        rules.append("R-matrix")
+    pending = still
+    if len(pending) > 1:
+        return no_symbol(pending[0], f"R-unique does not apply: {len(pending)} parameters remain unassociated "
+                                     f"({', '.join(p.name for p in pending)})")
     # result
-    atoms_all = set(syms) | set(bases) | {a for a in applied}
-    # arguments of applied functions are symbols too (already in syms)
     res, rhow = None, ""
+    ret_shape = annotation_shape(c.ret_annotation) if c.out_kind in ("none", "dim") else None
     if c.out_kind == "sym":
         res, rhow = c.out_spec, "decorator"
     elif c.out_kind == "fun":
@@ -333,6 +517,18 @@ def _associate(c: Contract, mod, eq):
             return f"result: function {c.out_spec} is applied more than once (or never) in the equation"
     elif c.out_kind == "idx":
         return "result is an indexed family (one member of a sum); which member is not named by the decorator"
+    elif ret_shape is not None:
+        # the function returns a tuple: R-matrix on the result (shape only: leaf annotations of results are not relied on)
+        t = _r_matrix("the returned tuple", ret_shape, matrix_literals(eq), used,
+                      dim=c.out_spec if c.out_kind == "dim" else None, leaf_kinds=False)
+        if isinstance(t, str):
+            return ("result: validate_output names no law symbol and the function returns a tuple; "
+                    f"R-matrix does not apply: {t}")
+        res, rhow = t, "R-matrix"
+        notes.append(f"R-matrix: result <-> {_show_target(t)} (entrywise, row-major)")
+        rules.append("R-matrix")
+    elif pending:
+        return no_symbol(pending[0], "R-unique does not apply: the result is not associated by validate_output")
     else:
         free = plain_free()
         named = vars(mod).get(c.fname[len("calculate_"):])
@@ -350,12 +546,44 @@ def _associate(c: Contract, mod, eq):
         else:
             return ("result: validate_output names no law symbol and the equation has "
                     f"{len(free)} unassociated symbols")
-    if res in used:
+    res_leaves = shape_flat(res)
+    if any(r in used for r in res_leaves):
         return f"result symbol {res} also guards a parameter"
-    unbound = [s for s in plain_free() if s != res]
+    # ---- rule R-unique: one unguarded parameter left, one dimensionless law symbol left
+    if pending:
+        p = pending[0]
+        free = [s for s in plain_free() if s not in res_leaves]
+        if p.kind != "unguarded":
+            return no_symbol(p, "R-unique does not apply: the parameter carries a dimension-only guard (the rule covers "
+                                "unguarded parameters only)")
+        if not (p.annotation in (float, int) or (inspect.isclass(p.annotation) and p.annotation.__name__ == "Quantity")):
+            return no_symbol(p, f"R-unique does not apply: the parameter is annotated {_ann_str(p)}, not a number / Quantity")
+        if len(free) != 1:
+            return no_symbol(p, f"R-unique does not apply: {len(free)} law symbols remain unassociated "
+                                f"({', '.join(sorted(map(str, free)))})")
+        s = free[0]
+        d = getattr(s, "dimension", None)
+        if d is None or not _is_dimensionless(d):
+            return no_symbol(p, f"R-unique does not apply: the only leftover law symbol {s} is declared with dimension "
+                                f"{d}, an unguarded parameter is a plain number and needs a dimensionless symbol")
+        amap[p.name] = s
+        hows[p.name] = "R-unique"
+        used.add(s)
+        notes.append(f"R-unique: parameter {p.name} <-> {s} (the only unassociated parameter and the only unassociated law "
+                     "symbol, declared dimensionless)")
+        rules.append("R-unique")
+    unbound = [s for s in plain_free() if s not in res_leaves]
     if unbound:
         return f"law symbols {sorted(map(str, unbound))} are named by no guard (their values are not determined by the call)"
-    return {"params": amap, "hows": hows, "result": res, "result_how": rhow}
+    return {"params": amap, "hows": hows, "result": res, "result_how": rhow, "notes": notes,
+            "rules": sorted(set(rules))}
+
+
+def _show_target(t) -> str:
+    d = shape_dims(t)
+    if d and len(d) == 2:
+        return "Matrix([" + ", ".join("[" + ", ".join(map(str, r)) + "]" for r in t) + "])"
+    return "Matrix([" + ", ".join(map(str, shape_flat(t))) + "])"
 
 
 # ===================================================================================== generic execution
@@ -640,6 +868,44 @@ def law_residual(eq, sigma_pairs, n_by_base=None):
             return sp.S.Zero
         raise Unsupported(f"equation collapsed to {e} after instantiation")
     return _subst(e.lhs, sigma_pairs) - _subst(e.rhs, sigma_pairs)
+
+
+def _is_matrix(x) -> bool:
+    return isinstance(x, (sp.MatrixBase, sp.MatrixExpr)) or bool(getattr(x, "is_Matrix", False))
+
+
+def _explicit_matrix(x):
+    x = x.doit() if hasattr(x, "doit") else x
+    if isinstance(x, sp.MatrixBase):
+        return x
+    if isinstance(x, sp.MatrixExpr):
+        x = x.as_explicit()
+        if isinstance(x, sp.MatrixBase):
+            return x
+    raise Unsupported("a side of the matrix equation cannot be written out entry by entry")
+
+
+def law_sides(e) -> list:
+    """The scalar equations a published equation stands for, [(lhs, rhs)]: a matrix equation Eq(M, A * B) is read
+    entrywise (row-major), every other equation is itself."""
+    if _is_matrix(e.lhs) or _is_matrix(e.rhs):
+        if not (_is_matrix(e.lhs) and _is_matrix(e.rhs)):
+            raise Unsupported("equation between a matrix and a scalar")
+        L, R = _explicit_matrix(e.lhs), _explicit_matrix(e.rhs)
+        if L.shape != R.shape:
+            raise Unsupported(f"matrix equation between shapes {L.shape} and {R.shape}")
+        return [(L[i, j], R[i, j]) for i in range(L.rows) for j in range(L.cols)]
+    return [(e.lhs, e.rhs)]
+
+
+def law_residuals(eq, sigma_pairs, n_by_base=None) -> list:
+    """[lhs_k sigma - rhs_k sigma] over the scalar equations of the law (one entry for a scalar law)."""
+    e = instantiate_law(eq, n_by_base or {})
+    if not isinstance(e, sp.Eq):
+        if e is sp.true:
+            return [sp.S.Zero]
+        raise Unsupported(f"equation collapsed to {e} after instantiation")
+    return [_subst(l, sigma_pairs) - _subst(r, sigma_pairs) for l, r in law_sides(e)]
 
 
 # ===================================================================================== discharge
@@ -1008,23 +1274,45 @@ def numeric_residual(eq, pairs, n_by_base=None, op=""):
     """returns (ok, lhs, rhs, detail) with the documented operation applied when op is set."""
     r_atom, r_val = pairs[-1]
     e = instantiate_law(eq, n_by_base or {})
+    sides = law_sides(e) if isinstance(e, sp.Eq) else [(e.lhs, e.rhs)]
+    if len(sides) > 1:
+        if op:
+            raise Unsupported("documented abs()/ceiling() on a matrix-shaped law")
+        oks, lvs, rvs, details = [], [], [], []
+        for k, (l_, r_) in enumerate(sides):
+            ok, lv, rv, detail = _numeric_sides(l_, r_, pairs)
+            oks.append(ok)
+            lvs.append(lv)
+            rvs.append(rv)
+            details.append(f"entry {k}: {detail}")
+        return all(oks), lvs, rvs, "matrix law, entrywise: " + "; ".join(details)
     if op == "":
-        lhs, rhs = _subst(e.lhs, pairs), _subst(e.rhs, pairs)
-        lv, rv = _nval(lhs), _nval(rhs)
-        li, ri = math.isinf(abs(lv)), math.isinf(abs(rv))
-        if li or ri:
-            if li and ri:
-                ok = lv == rv
-                return ok, lv, rv, f"lhs={lv!r} rhs={rv!r} (both infinite)"
-            other = abs(rv) if li else abs(lv)
-            if other > 1e300:
-                raise Unsupported("non-finite value (float overflow) at this point")
-            return False, lv, rv, f"lhs={lv!r} rhs={rv!r}: one side of the law is infinite, the other is finite"
-        # the terms of the law's own sides give the honest scale (a side that is a difference of huge terms, or 0)
-        scale = max(abs(lv), abs(rv), _term_scale(e.lhs, pairs), _term_scale(e.rhs, pairs), 1e-300)
-        ok = abs(lv - rv) <= REL_TOL * scale
-        return ok, lv, rv, f"lhs={lv!r} rhs={rv!r} |lhs-rhs|/scale={abs(lv - rv) / scale:.3e}"
+        return _numeric_sides(e.lhs, e.rhs, pairs)
+    return _numeric_op(eq, pairs, n_by_base, op)
+
+
+def _numeric_sides(elhs, erhs, pairs):
+    """One scalar equation of the law at one point: (ok, lhs value, rhs value, detail)."""
+    lhs, rhs = _subst(elhs, pairs), _subst(erhs, pairs)
+    lv, rv = _nval(lhs), _nval(rhs)
+    li, ri = math.isinf(abs(lv)), math.isinf(abs(rv))
+    if li or ri:
+        if li and ri:
+            ok = lv == rv
+            return ok, lv, rv, f"lhs={lv!r} rhs={rv!r} (both infinite)"
+        other = abs(rv) if li else abs(lv)
+        if other > 1e300:
+            raise Unsupported("non-finite value (float overflow) at this point")
+        return False, lv, rv, f"lhs={lv!r} rhs={rv!r}: one side of the law is infinite, the other is finite"
+    # the terms of the law's own sides give the honest scale (a side that is a difference of huge terms, or 0)
+    scale = max(abs(lv), abs(rv), _term_scale(elhs, pairs), _term_scale(erhs, pairs), 1e-300)
+    ok = abs(lv - rv) <= REL_TOL * scale
+    return ok, lv, rv, f"lhs={lv!r} rhs={rv!r} |lhs-rhs|/scale={abs(lv - rv) / scale:.3e}"
+
+
+def _numeric_op(eq, pairs, n_by_base, op):
     # abs / ceiling: result == op(solution of the law for the result symbol)
+    r_atom, r_val = pairs[-1]
     s = sp.Dummy("sol")
     resid = numeric_constants(law_residual(eq, [(a, sp.N(v)) if not isinstance(v, list) else (a, [sp.N(x) for x in v])
                                                 for a, v in pairs[:-1]] + [(r_atom, s)], n_by_base))
@@ -1093,10 +1381,13 @@ def replay_point(modname: str, fname: str, law_attr: str, args: dict, op: str = 
         kwargs[p.name] = _build_arg(p, args[p.name])
     print("calling", f"{modname}.{fname}")
     for k, v in kwargs.items():
-        print("  ", k, "=", v, " scale_factor=", [getattr(x, "scale_factor", x) for x in v] if isinstance(v, list)
-              else getattr(v, "scale_factor", v))
+        print("  ", k, "=", v, " scale_factor=", shape_map(lambda x: getattr(x, "scale_factor", x), v)
+              if isinstance(v, (list, tuple)) else getattr(v, "scale_factor", v))
+    for note in assoc.get("notes", []):
+        print("association:", note)
     result = c.decorated(**kwargs)
-    print("returned", result, " SI value", numeric_value(result))
+    print("returned", result, " SI value", shape_map(numeric_value, result) if isinstance(result, (list, tuple))
+          else numeric_value(result))
     pairs, n_by_base = _numeric_pairs(c, assoc, kwargs, result)
     ok, lv, rv, detail = numeric_residual(eq, pairs, n_by_base, c.op)
     print("law:", eq)
@@ -1104,8 +1395,16 @@ def replay_point(modname: str, fname: str, law_attr: str, args: dict, op: str = 
     assert ok, f"{short(modname)}.{fname}: law {law_attr} violated: {detail}"
 
 
-def _build_arg(p: Param, entry):
+def _build_arg(p: Param, entry, target=None):
     tag = entry[0]
+    if tag == "tuple":
+        # R-matrix parameter: the dimension of each entry is the declared dimension of the law symbol at that position
+        t = p.target if target is None else target
+        assert isinstance(t, tuple) and len(t) == len(entry[1]), "matrix-shaped argument does not fit the association"
+        return tuple(_build_arg(p, e, target=ti) for e, ti in zip(entry[1], t))
+    if target is not None and tag in ("q", "qx"):
+        dim = getattr(target, "dimension", None)
+        return make_quantity(dim, float(entry[1]) if tag == "q" else entry[1], entry[2], exact=(tag == "qx"))
     if tag == "q":
         return make_quantity(param_dimension(p), float(entry[1]), entry[2])
     if tag == "qx":
@@ -1139,13 +1438,23 @@ def _numeric_pairs(c: Contract, assoc, kwargs, result):
 
     for p in c.params:
         a = kwargs[p.name]
-        if isinstance(a, (list, tuple)):
+        if isinstance(p.target, tuple):
+            pairs += [(s_, val(x)) for s_, x in shape_zip(p.target, a)]
+        elif isinstance(a, (list, tuple)):
             pairs.append((p.target, [val(x) for x in a]))
             n_by_base[p.target] = len(a)
         else:
             pairs.append((p.target, val(a)))
-    pairs.append((assoc["result"], val(result)))
+    if isinstance(assoc["result"], tuple):
+        # R-matrix result: the returned nested tuple entrywise (ValueError when the shape differs: judged by the caller)
+        pairs += [(s_, val(x)) for s_, x in shape_zip(assoc["result"], result)]
+    else:
+        pairs.append((assoc["result"], val(result)))
     return pairs, n_by_base
+
+
+def _n_result_pairs(assoc) -> int:
+    return len(shape_flat(assoc["result"])) if isinstance(assoc["result"], tuple) else 1
 
 
 def replay_script(c: Contract, law_attr: str, args: dict, fn: str = "replay_point") -> str:
@@ -1175,6 +1484,8 @@ class FnResult:
     rebound: list = field(default_factory=list)
     axioms: list = field(default_factory=list)
     notes: list = field(default_factory=list)
+    assoc_notes: list = field(default_factory=list)  # which rule associated which parameter / result to which law symbols
+    assoc_rules: list = field(default_factory=list)  # R-matrix / R-unique, when used
     file: str = ""
     secs: float = 0.0
 
@@ -1186,7 +1497,7 @@ def _is_seq_param(p: Param) -> bool:
 
 SYNTACTIC_BOUNDED_RULES = [
     ("imaginary", "law or returned expression contains the imaginary unit (complex impedance); I is never a real variable"),
-    ("matrix", "law contains matrices"),
+    ("matrix", "law contains matrices that cannot be written out entry by entry"),
     ("float-exponent", "law contains a power with a machine-float / high-degree rational exponent (root of degree > 12): "
                        "equality only to numerical precision"),
 ]
@@ -1196,7 +1507,13 @@ def syntactic_demotion(c: Contract, eq) -> str:
     if eq.has(sp.I):
         return SYNTACTIC_BOUNDED_RULES[0][1]
     if eq.atoms(sp.MatrixBase) or eq.has(sp.MatMul) or eq.has(sp.MatAdd):
-        return SYNTACTIC_BOUNDED_RULES[1][1]
+        # a matrix equation whose two sides can be written out entry by entry is read entrywise (rule R-matrix) and goes the
+        # generic-execution route; any other use of matrices stays with the bounded stand-in
+        try:
+            if len(law_sides(eq)) < 1 or not (_is_matrix(eq.lhs) and _is_matrix(eq.rhs)):
+                return SYNTACTIC_BOUNDED_RULES[1][1]
+        except Exception:  # noqa: BLE001
+            return SYNTACTIC_BOUNDED_RULES[1][1]
     if _high_degree(reeval(eq.lhs - eq.rhs)):
         return SYNTACTIC_BOUNDED_RULES[2][1]
     for p in c.params:
@@ -1219,6 +1536,13 @@ def symbolic_function(c: Contract, law_attr, eq, assoc, rng) -> tuple[str, list,
     for shape in shapes:
         args, pairs, n_by_base = {}, [], {}
         for p in c.params:
+            if isinstance(p.target, tuple):
+                # R-matrix: one fresh symbol per entry, named after its position, carrying the entry symbol's assumptions
+                a = _indexed_map(lambda s, ix: arg_symbol(p.name, s, getattr(s, "dimension", None),
+                                                          "_" + "_".join(map(str, ix))), p.target)
+                args[p.name] = a
+                pairs += shape_zip(p.target, a)
+                continue
             dim = param_dimension(p)
             if p in seqs:
                 a = [arg_symbol(p.name, None, dim, f"_{k + 1}") for k in range(shape)]
@@ -1252,12 +1576,25 @@ def symbolic_function(c: Contract, law_attr, eq, assoc, rng) -> tuple[str, list,
                 return ("unreachable", [], f"generic execution raised {type(val).__name__}: {str(val)[:160]}",
                         rebound_all, [])
             returned += 1
-            if isinstance(val, (tuple, list)) or not isinstance(val, (sp.Expr, int, float)):
+            if isinstance(c.out_target, tuple):
+                # R-matrix result: the returned nested tuple is read entrywise against the associated law symbols
+                try:
+                    leaves = [v for _s, v in shape_zip(c.out_target, val)]
+                except ValueError as e:
+                    return ("unreachable", [], f"returned object does not have the shape of the associated law matrix: {e}",
+                            rebound_all, [])
+                if not all(isinstance(v, (sp.Expr, int, float)) for v in leaves):
+                    return "unreachable", [], "returned object has entries that are not scalars", rebound_all, []
+                val = shape_map(sp.sympify, val)
+                leaves = shape_flat(val)
+            elif isinstance(val, (tuple, list)) or not isinstance(val, (sp.Expr, int, float)):
                 return "unreachable", [], f"returned object is a {type(val).__name__}, not a scalar", rebound_all, []
-            val = sp.sympify(val)
-            if val.has(sp.I):
+            else:
+                val = sp.sympify(val)
+                leaves = [val]
+            if any(v.has(sp.I) for v in leaves):
                 return "unreachable", [], SYNTACTIC_BOUNDED_RULES[0][1], rebound_all, []
-            if val.has(sp.nan) or val.has(sp.zoo) or val.has(sp.oo):
+            if any(v.has(sp.nan) or v.has(sp.zoo) or v.has(sp.oo) for v in leaves):
                 # on this path the function divides by zero: no finite value is returned (the real Quantity
                 # constructor refuses non-finite scale factors), the property does not constrain it
                 returned -= 1
@@ -1318,10 +1655,14 @@ def _path_infeasible(cond) -> bool:
 def _discharge_path(c, law_attr, eq, pairs, n_by_base, val, cond, pname, args, rng, axioms_all) -> Ob:
     sig = c.qual
     res_atom = c.out_target
+    if isinstance(res_atom, tuple):
+        return _discharge_path_matrix(c, law_attr, eq, pairs, n_by_base, val, cond, pname, args, rng, axioms_all)
     r0 = sp.Symbol("vf_r0", real=True, **{k: True for k in SIGN_KEYS
                                             if getattr(res_atom, "assumptions0", {}).get(k) is True})
     if c.op == "ceiling":
         return _discharge_ceiling(c, eq, pairs, n_by_base, val, cond, pname, r0, axioms_all)
+    if len(law_sides(eq)) > 1:
+        return _discharge_path_matrix(c, law_attr, eq, pairs, n_by_base, val, cond, pname, args, rng, axioms_all)
     R_raw = law_residual(eq, pairs + [(res_atom, val)], n_by_base)
     Rm_raw = law_residual(eq, pairs + [(res_atom, -val)], n_by_base) if c.op == "abs" else None
     H_raw = law_residual(eq, pairs + [(res_atom, r0)], n_by_base)
@@ -1384,6 +1725,84 @@ def _discharge_path(c, law_attr, eq, pairs, n_by_base, val, cond, pname, args, r
         if tr1 is not None and any(not isinstance(e, sp.Symbol) for e in tr1.atom_exprs.values()):
             # the countermodel assigns free values to uninterpreted terms (exp, log, symbolic powers, ...): it is only a
             # candidate; without a failing input reproduced on the real function this is NOT a refutation
+            ob.verdict = UNKNOWN
+            ob.detail = ("countermodel over uninterpreted terms, not reproduced on the real function ("
+                         + str(ob.replay.get("message", ""))[:120] + ") | " + ob.detail)[:600]
+            ob.replay = None
+        return ob
+    if floats:
+        raise FloatOnly("machine floats: the residual does not vanish exactly with floats read as exact rationals "
+                        f"({ob.verdict} by {ob.backend}); equality to numerical precision is decided by the bounded stand-in")
+    ob.detail = (ob.detail + f" | D0: {ob0.verdict}")[:400]
+    return ob
+
+
+def _discharge_path_matrix(c, law_attr, eq, pairs, n_by_base, val, cond, pname, args, rng, axioms_all) -> Ob:
+    """Matrix-shaped law and / or tuple result (rule R-matrix): every entry of lhs - rhs must vanish.  Same two domains as
+    the scalar case (D0 all real arguments; D1 arguments for which the law has a real solution for the result symbols)."""
+    sig = c.qual
+    if c.op:
+        raise Unsupported("documented abs()/ceiling() on a matrix-shaped law")
+    res_pairs = shape_zip(c.out_target, val) if isinstance(c.out_target, tuple) else [(c.out_target, val)]
+    r0s = [sp.Symbol("vf_r0" if len(res_pairs) == 1 else f"vf_r0_{k}", real=True,
+                     **{a: True for a in SIGN_KEYS if getattr(s_, "assumptions0", {}).get(a) is True})
+           for k, (s_, _v) in enumerate(res_pairs)]
+    R_raw = law_residuals(eq, pairs + res_pairs, n_by_base)
+    H_raw = law_residuals(eq, pairs + [(s_, r) for (s_, _v), r in zip(res_pairs, r0s)], n_by_base)
+    vals = [v for _s, v in res_pairs]
+    from sympy.physics.units import Quantity as SymQuantity
+    has_consts = any(sp.sympify(x).atoms(SymQuantity) for x in (*R_raw, *vals, *cond))
+    variants = [("constants-as-positive-symbols", lambda e: reduce_constants(e)[0])]
+    if has_consts:
+        variants.append(("constants-numeric", numeric_constants))
+    t_all = time.time()
+    final = None
+    for vname, conv in variants:
+        R = [reeval(conv(x)) for x in R_raw]
+        valc = [reeval(conv(x)) for x in vals]
+        H = [reeval(conv(x)) for x in H_raw]
+        pc = [reeval(conv(x)) for x in cond]
+        ob0, m0, tr0, used = prove_zero(pname, R, assume=pc, domain_exprs=valc, signature=sig)
+        _merge(axioms_all, used)
+        if ob0.verdict == PROVED:
+            ob0.detail = (f"domain=all-real-arguments;{len(R)} entries;" + vname + (";" + ob0.detail if ob0.detail else ""))
+            ob0.ms = (time.time() - t_all) * 1000
+            return ob0
+        if ob0.verdict == FAULT:
+            return ob0
+        ob1, m1, tr1 = ob0, m0, tr0
+        Hn = [h for h in H if h != 0]
+        if ob0.verdict == REFUTED and Hn and any(set(r0s) & sp.sympify(h).free_symbols for h in Hn):
+            ob1, m1, tr1, used = prove_zero(pname, R, assume=pc + [sp.Eq(h, 0, evaluate=False) for h in Hn],
+                                            domain_exprs=valc + Hn, signature=sig)
+            _merge(axioms_all, used)
+            if ob1.verdict == PROVED:
+                ob1.detail = (f"domain=arguments-for-which-the-law-has-a-real-solution;{len(R)} entries;" + vname
+                              + (";" + ob1.detail if ob1.detail else ""))
+                ob1.ms = (time.time() - t_all) * 1000
+                return ob1
+            if ob1.verdict == FAULT:
+                ob1, m1, tr1 = ob0, m0, tr0
+        final = (vname, ob0, ob1, m1, tr1, R, valc, H, pc)
+    vname, ob0, ob1, m1, tr1, R, valc, H, pc = final
+    ob = ob1
+    ob.ms = (time.time() - t_all) * 1000
+    floats = _has_float(*R, *valc)
+    if ob.verdict == REFUTED:
+        ob.detail += " | residual entries: " + str(R)[:300] + " | returned: " + str(valc)[:200]
+        try:
+            with time_limit(EXEC_TIMEOUT_S):
+                ob.replay = _concretize(c, law_attr, eq, m1, tr1, args, pc, R, H, rng)
+        except _Timeout:
+            ob.replay = {"reproduced": False, "script": None, "message": "search for a concrete input timed out"}
+        if ob.replay.get("reproduced"):
+            ob.detail += " | failing input: " + str(ob.replay.get("inputs"))
+            return ob
+        if floats:
+            raise FloatOnly("machine floats: the residual does not vanish exactly with floats read as exact rationals "
+                            f"(refuted by {ob.backend}, no failing input beyond {REL_TOL:g} relative found); equality to "
+                            "numerical precision is decided by the bounded stand-in")
+        if tr1 is not None and any(not isinstance(e, sp.Symbol) for e in tr1.atom_exprs.values()):
             ob.verdict = UNKNOWN
             ob.detail = ("countermodel over uninterpreted terms, not reproduced on the real function ("
                          + str(ob.replay.get("message", ""))[:120] + ") | " + ob.detail)[:600]
@@ -1462,9 +1881,17 @@ def _concretize(c: Contract, law_attr, eq, model, tr, args, cond, R, H, rng) -> 
     """Turn a countermodel (or, failing that, a seeded search) into a real call that violates the law."""
     flat = []
     for p in c.params:
-        a = args[p.name]
-        flat += list(a) if isinstance(a, list) else [a]
+        flat += shape_flat(args[p.name])
+    mats = [args[p.name] for p in c.params if isinstance(p.target, tuple)]
+
     def rand_pt(signed: bool):
+        for _ in range(20):
+            pt = rand_pt1(signed)
+            if all(_asymmetric(shape_map(lambda x: pt[x], m)) for m in mats):
+                break
+        return pt
+
+    def rand_pt1(signed: bool):
         pt = {}
         for s in flat:
             v = math.exp(rng.uniform(math.log(0.2), math.log(8)))
@@ -1492,7 +1919,9 @@ def _concretize(c: Contract, law_attr, eq, model, tr, args, cond, R, H, rng) -> 
             entries = {}
             for p in c.params:
                 a = args[p.name]
-                if isinstance(a, list):
+                if isinstance(p.target, tuple):
+                    entries[p.name] = _matrix_entries(p, shape_map(lambda x: pt[x], a), rng)
+                elif isinstance(a, list):
                     entries[p.name] = ("list", [_entry(p, pt[x], rng) for x in a])
                 else:
                     entries[p.name] = _entry(p, pt[a], rng)
@@ -1533,6 +1962,8 @@ def _path_holds(cond, pt) -> bool:
 
 def _prescreen_small(R, pt) -> bool:
     """Cheap filter before calling the real function: is the symbolic residual numerically ~0 at pt?"""
+    if isinstance(R, (list, tuple)):
+        return all(_prescreen_small(r, pt) for r in R)
     try:
         r = numeric_constants(sp.sympify(R).xreplace({s: sp.Float(v) for s, v in pt.items()}))
         r = r.xreplace({s: sp.Float(1.0) for s in r.free_symbols})
@@ -1547,6 +1978,10 @@ def _law_satisfiable_at(H, pt) -> bool:
     """Does the law have a real solution for the result symbol at these argument values?  (numeric; conservative:
     when no real root is found the point counts as outside the domain, so it is not used as a failing input)"""
     import cmath
+    if isinstance(H, (list, tuple)):
+        if len(H) == 1:
+            return _law_satisfiable_at(H[0], pt)
+        return _system_satisfiable_at(H, pt)
     try:
         r0 = [s for s in sp.sympify(H).free_symbols if s.name == "vf_r0"]
         if not r0:
@@ -1578,6 +2013,73 @@ def _law_satisfiable_at(H, pt) -> bool:
         return False
     except Exception:  # noqa: BLE001
         return False
+
+
+def _system_satisfiable_at(H, pt) -> bool:
+    """Several result symbols (matrix-shaped law): does the system H = 0 have a real solution for them at these argument
+    values?  SymPy solves the numeric system (linear for the catalogue's matrix laws); conservative: False on any doubt."""
+    try:
+        hs = [numeric_constants(sp.sympify(h).xreplace({s: sp.Rational(repr(float(v))) if abs(float(v)) < 1e15 else sp.Float(v)
+                                                        for s, v in pt.items()})) for h in H]
+        r0s = sorted({s for h in hs for s in h.free_symbols if s.name.startswith("vf_r0")}, key=str)
+        hs = [h for h in hs if h != 0]
+        if not r0s or not hs:
+            return True
+        if any(h.free_symbols - set(r0s) for h in hs):
+            return False
+        with time_limit(POINT_TIMEOUT_S):
+            sols = sp.solve(hs, r0s, dict=True)
+        for so in sols:
+            vals = [complex(sp.N(so.get(r, 0))) for r in r0s if r in so]
+            if len(vals) == len(r0s) and all(abs(v.imag) <= 1e-12 * max(1.0, abs(v.real)) and v == v for v in vals):
+                return True
+        return False
+    except BaseException:  # noqa: BLE001
+        return False
+
+
+def _asymmetric(m) -> bool:
+    """A square matrix of numbers whose mirrored off-diagonal entries differ by more than 20 % (a transposed use of the
+    matrix is visible there); anything that is not a square matrix counts as asymmetric."""
+    d = shape_dims(m)
+    if not d or len(d) != 2 or d[0] != d[1]:
+        return True
+    for i in range(d[0]):
+        for j in range(i + 1, d[0]):
+            a, b = abs(float(m[i][j])), abs(float(m[j][i]))
+            if abs(float(m[i][j]) - float(m[j][i])) <= 0.2 * max(a, b, 1e-300):
+                return False
+    return True
+
+
+def _leaf_entry(sym, kind: str, v: float, rng):
+    """Replay entry for one matrix entry: a plain number for a float leaf / dimensionless symbol, else a Quantity of the
+    symbol's declared dimension written with a random unit prefix."""
+    d = getattr(sym, "dimension", None)
+    if kind == "f" or d is None or _is_dimensionless(d):
+        return ("f", float(v))
+    return ("q", float(v), rng.choice([x for x, _ in PREFIXES]))
+
+
+def _matrix_entries(p: Param, values, rng):
+    """("tuple", [...]) entry for an R-matrix parameter from a nested tuple of numbers."""
+    kinds = annotation_shape(p.annotation) or shape_map(lambda _s: "q", p.target)
+
+    def build(t, k, v):
+        if isinstance(t, tuple):
+            return ("tuple", [build(a, b, c_) for a, b, c_ in zip(t, k, v)])
+        return _leaf_entry(t, k, v, rng)
+
+    return build(p.target, kinds, values)
+
+
+def _random_matrix(p: Param, rng):
+    """Seeded random magnitudes for an R-matrix parameter: independent per entry (0.05 .. 20), asymmetric when square."""
+    for _ in range(50):
+        vals = shape_map(lambda _s: math.exp(rng.uniform(math.log(0.05), math.log(20))), p.target)
+        if _asymmetric(vals):
+            break
+    return vals
 
 
 def _wants_int(p: Param) -> bool:
@@ -1633,13 +2135,18 @@ def bounded_function(c: Contract, law_attr, eq, assoc, rng, npoints: int, wide: 
         n = rng.randint(1, 4)
         if wide:
             expo, pname_ = WIDE_SCALES[((tries - 1) // 2) % len(WIDE_SCALES)]
-            dimensional = [p for p in c.params if not _wants_int(p) and not _is_dimensionless(param_dimension(p))
-                           and _ann_str(p) != "float"]
+            dimensional = [p for p in c.params if not isinstance(p.target, tuple) and not _wants_int(p)
+                           and not _is_dimensionless(param_dimension(p)) and _ann_str(p) != "float"]
             fs = sorted(10 ** rng.uniform(-0.7, 0.7) for _ in dimensional)
             if tries % 2 == 0:
                 fs.reverse()
             wide_val = {p.name: f * 10.0 ** expo for p, f in zip(dimensional, fs)}
         for p in c.params:
+            if isinstance(p.target, tuple):
+                # R-matrix parameter: independent seeded magnitudes and unit prefixes per entry, asymmetric when square
+                entries[p.name] = _matrix_entries(p, _random_matrix(p, rng), rng)
+                continue
+
             def one():
                 v = math.exp(rng.uniform(math.log(0.05), math.log(20)))
                 tgt = p.target
@@ -1674,7 +2181,7 @@ def bounded_function(c: Contract, law_attr, eq, assoc, rng, npoints: int, wide: 
             with time_limit(POINT_TIMEOUT_S):
                 pairs, n_by_base = _numeric_pairs(c, assoc, kwargs, result)
                 ok, lv, rv, detail = numeric_residual(eq, pairs, n_by_base, c.op)
-                if not ok and c.op == "" and _ill_conditioned(eq, pairs, n_by_base):
+                if not ok and c.op == "" and _ill_conditioned(eq, pairs, n_by_base, _n_result_pairs(assoc)):
                     illcond += 1
                     continue
         except _Timeout:
@@ -1887,11 +2394,29 @@ def _float64(expr):
     return ev(numeric_constants(sp.sympify(expr)))
 
 
-def _ill_conditioned(eq, pairs, n_by_base) -> bool:
+def _ill_conditioned(eq, pairs, n_by_base, nres: int = 1) -> bool:
     """A point where the law's own sides move by more than the tolerance when the ARGUMENTS move by 1e-13 relative:
-    float64 arguments cannot carry the information there (e.g. a phase of 1e30 rad); such points are skipped."""
+    float64 arguments cannot carry the information there (e.g. a phase of 1e30 rad); such points are skipped.
+    nres: number of trailing pairs that are result entries (matrix-shaped results); a matrix law is ill-conditioned when
+    one of its entries is."""
     try:
-        e = instantiate_law(eq, n_by_base or {})
+        e0 = instantiate_law(eq, n_by_base or {})
+        all_sides = law_sides(e0)
+    except Exception:  # noqa: BLE001
+        return False
+    if len(all_sides) > 1 or nres > 1:
+        return any(_ill_conditioned_sides(l_, r_, pairs, nres) for l_, r_ in all_sides)
+    return _ill_conditioned_sides(e0.lhs, e0.rhs, pairs, 1)
+
+
+class _Sides:
+    def __init__(self, lhs, rhs):
+        self.lhs, self.rhs = lhs, rhs
+
+
+def _ill_conditioned_sides(elhs, erhs, pairs, nres: int = 1) -> bool:
+    try:
+        e = _Sides(elhs, erhs)
 
         def sides(pp):
             return _nval(_subst(e.lhs, pp)), _nval(_subst(e.rhs, pp))
@@ -1902,7 +2427,7 @@ def _ill_conditioned(eq, pairs, n_by_base) -> bool:
             return sp.sympify(v) * (1 + sp.Rational(1, 10**13))
 
         l0, r0 = sides(pairs)
-        pp = [(a, bump(v)) for a, v in pairs[:-1]] + [pairs[-1]]
+        pp = [(a, bump(v)) for a, v in pairs[:-nres]] + list(pairs[-nres:])
         l1, r1 = sides(pp)
         scale = max(abs(l0), abs(r0), 1e-300)
         if max(abs(l1 - l0), abs(r1 - r0)) > REL_TOL * scale / 10:
@@ -2010,6 +2535,9 @@ def _process_function_main(mod, fname, fr: FnResult, rng, npoints, demoted, gene
     entry = demoted.get(fr.qual)
     hs = set(c.laws[0][2]["hows"].values()) | {c.laws[0][2]["result_how"]}
     fr.assoc = "decorator" if hs == {"decorator"} else "+".join(sorted(hs))
+    for _n, _e, a_ in c.laws:
+        _merge(fr.assoc_notes, a_.get("notes", []))
+        _merge(fr.assoc_rules, a_.get("rules", []))
     sym_done = False
     reasons = []
     for law_attr, eq, assoc in c.laws:
